@@ -377,16 +377,129 @@ theorem expand_left_is_torch_broadcast (out pre v : Shape) (c : List Nat) (hlen 
     (valueCoord (pre ++ v) out c).drop pre.length = valueCoord v out c :=
   valueCoord_expand_left out pre v c hlen
 
-/-- **Collection values.** `td[idx] = TensorDict(entries, batch_size = indexed batch size)` (Ellipsis-free tuple index torch accepts
-on the batch shape) is, in `__setitem__`'s first branch (`_getitem_batch_size`, batch comparison, `_set_at_str` per key,
-`_SubTensorDict.set` for keys missing from the destination), exactly one `entry[idx] = value[key]` per key — on the destination
-leaf, or on a fresh zero leaf `batch_size ++ value[key].shape[len(indexed_bs):]` for a new key — and nothing else. Each of those
-calls is described by `setitem_frame` / `setitem_hit`; a value whose batch is a trailing part of the indexed batch goes through
-`expand_left_is_torch_broadcast`. -/
+/-! #### collection values: `td[idx] = dict / TensorDict` (`__setitem__`'s first branch, `Td.setitemColl`)
+
+`collPlan` is the batch handling (dict → `from_dict_instance`; equal batch; trailing batch → `expand`; otherwise batch-size
+reassignment), `entryWriteK` one key (`_set_at_str`, or `_SubTensorDict.set` for a key missing from the destination). -/
+
+/-- **Collection values, general form.** For an Ellipsis-free tuple index torch accepts on the batch shape (result `R`),
+`td[idx] = value` is: the batch handling of the value against `R.shape`, then one `entry[idx] = item` per key, in order. -/
+theorem setitem_collection_spec (td : TD) (items : List Ix) (R : IndexResult) (isDict : Bool) (vb : Shape)
+    (entries : List VEntry) (hn : noEll items = true) (h : index td.bs items = .ok R) :
+    setitemColl td (.tuple items) isDict vb entries =
+      (match collPlan isDict vb R.shape entries with
+       | .error e => .error e
+       | .ok (k, shapes) => (entries.zip shapes).mapM (fun (e, sh) => entryWriteK td R.shape items k e sh)) :=
+  setitemColl_spec td items R isDict vb entries hn h
+
+/-- **TensorDict value of the indexed batch size**: exactly one `entry[idx] = value[key]` per key, nothing else. -/
 theorem setitem_collection_exact (td : TD) (items : List Ix) (R : IndexResult) (entries : List VEntry)
     (hn : noEll items = true) (h : index td.bs items = .ok R) :
-    setitemColl td (.tuple items) false R.shape entries = entries.mapM (entryWrite td R.shape items) :=
-  setitemColl_exact td items R entries hn h
+    setitemColl td (.tuple items) false R.shape entries
+      = entries.mapM (fun e => entryWriteK td R.shape items 0 e e.shape) := by
+  rw [setitemColl_spec td items R false R.shape entries hn h, collPlan_exact]
+  exact mapM_zip_map (·.shape) (fun (p : VEntry × Shape) => entryWriteK td R.shape items 0 p.1 p.2) entries
+
+/-- **dict value**: accepted iff every entry starts with the indexed batch size (`from_dict_instance(batch_size=indexed_bs)`),
+and then it is the same per-key assignment. -/
+theorem setitem_collection_dict (td : TD) (items : List Ix) (R : IndexResult) (vb : Shape) (entries : List VEntry)
+    (hn : noEll items = true) (h : index td.bs items = .ok R) :
+    setitemColl td (.tuple items) true vb entries =
+      if entries.all (fun e => hasPrefix R.shape e.shape) then entries.mapM (fun e => entryWriteK td R.shape items 0 e e.shape)
+      else .error .runtime := by
+  rw [setitemColl_spec td items R true vb entries hn h, collPlan_dict]
+  by_cases hall : entries.all (fun e => hasPrefix R.shape e.shape) = true
+  · simp only [hall, if_true]
+    exact mapM_zip_map (·.shape) (fun (p : VEntry × Shape) => entryWriteK td R.shape items 0 p.1 p.2) entries
+  · simp only [hall, Bool.false_eq_true, if_false]
+
+/-- **batch-size reassignment path**: a TensorDict value whose batch is neither the indexed batch nor a trailing part of it
+(`value.copy(); value.batch_size = indexed_bs`) is accepted iff every entry starts with the indexed batch size — e.g. a
+batch-less value whose entries already have the indexed shape — and is then the same per-key assignment; otherwise it raises. -/
+theorem setitem_collection_reassign (td : TD) (items : List Ix) (R : IndexResult) (vb : Shape) (entries : List VEntry)
+    (hn : noEll items = true) (h : index td.bs items = .ok R) (h1 : vb ≠ R.shape)
+    (h2 : vb ≠ (if vb.length = 0 then R.shape else R.shape.drop (R.shape.length - vb.length))) :
+    setitemColl td (.tuple items) false vb entries =
+      if entries.all (fun e => hasPrefix R.shape e.shape) then entries.mapM (fun e => entryWriteK td R.shape items 0 e e.shape)
+      else .error .runtime := by
+  rw [setitemColl_spec td items R false vb entries hn h, collPlan_reassign vb R.shape entries h1 h2]
+  by_cases hall : entries.all (fun e => hasPrefix R.shape e.shape) = true
+  · simp only [hall, if_true]
+    exact mapM_zip_map (·.shape) (fun (p : VEntry × Shape) => entryWriteK td R.shape items 0 p.1 p.2) entries
+  · simp only [hall, Bool.false_eq_true, if_false]
+
+/-- **left broadcasting**: a TensorDict value whose (non-empty) batch `vb` is a proper trailing part of the indexed batch
+`pre ++ vb` is expanded: every item reaches torch with shape `(pre ++ vb) ++ item.shape[len(vb):]`, `len(pre)` leading
+coordinates of which do not exist in the original item. -/
+theorem setitem_collection_expand (td : TD) (items : List Ix) (R : IndexResult) (pre vb : Shape) (entries : List VEntry)
+    (hn : noEll items = true) (h : index td.bs items = .ok R) (hR : R.shape = pre ++ vb) (hpre : pre ≠ []) (hvb : vb ≠ []) :
+    setitemColl td (.tuple items) false vb entries
+      = entries.mapM (fun e => entryWriteK td R.shape items pre.length e (R.shape ++ e.shape.drop vb.length)) := by
+  rw [setitemColl_spec td items R false vb entries hn h, hR, collPlan_expand pre vb entries hpre hvb]
+  exact mapM_zip_map (fun e => (pre ++ vb) ++ e.shape.drop vb.length)
+    (fun (p : VEntry × Shape) => entryWriteK td (pre ++ vb) items pre.length p.1 p.2) entries
+
+/-- … and that manual expansion **is torch's own broadcast**: on a leaf `bs ++ feat`, writing the expanded item
+`(pre ++ vb) ++ f` and forgetting the added coordinates is `entry[idx] = item` with the original item `vb ++ f` (feature ranks
+equal): same acceptance, same element of the item at every position. -/
+theorem setitem_collection_expand_is_torch_broadcast (bs feat : Shape) (items : List Ix) (R : IndexResult) (pre vb f : Shape)
+    (hn : noEll items = true) (h : index bs items = .ok R) (hR : R.shape = pre ++ vb) (hf : f.length = feat.length) :
+    (setIndex (bs ++ feat) items ((pre ++ vb) ++ f)).map (fun wr c => (wr c).map (·.drop pre.length))
+      = setIndex (bs ++ feat) items (vb ++ f) := by
+  obtain ⟨R', hR', hshape, -, -⟩ := leaf_index_commutes bs feat items R hn h
+  have := setIndex_expand_left (bs ++ feat) items pre (vb ++ f) (vb ++ feat) R' hR'
+    (by rw [hshape, hR, List.append_assoc]) (by simp [hf])
+  simpa [List.append_assoc] using this
+
+/-- **a key missing from the destination**: the entry created for it has shape `batch_size ++ item.shape[len(indexed_bs):]`
+(zero-filled) and receives `new[idx] = item` — hence, by `setitem_frame` / `setitem_hit` with `feat = item.shape[len(indexed_bs):]`,
+exactly the elements `R.src c ++ f` are written, the others stay zero; an item that does not start with the indexed batch
+size is refused. -/
+theorem setitem_collection_missing_key (td : TD) (ibs : Shape) (items : List Ix) (k : Nat) (sh : Shape) :
+    entryWriteK td ibs items k { target := none, shape := sh } sh =
+      if hasPrefix ibs sh then
+        (setIndex (td.bs ++ sh.drop ibs.length) items sh).map (fun w =>
+          { target := none, leafShape := td.bs ++ sh.drop ibs.length, written := fun c => (w c).map (·.drop k) })
+      else .error .runtime := by
+  unfold entryWriteK
+  by_cases hp : hasPrefix ibs sh = true
+  · simp only [hp, if_true, bind, Except.bind, pure, Except.pure]
+    cases setIndex (td.bs ++ sh.drop ibs.length) items sh <;> rfl
+  · simp only [hp, Bool.false_eq_true, if_false, bind, Except.bind]
+
+/-! #### `_SubTensorDict` (`td._get_sub_tensordict(idx)`; the object `__setitem__` uses for keys missing from the destination) -/
+
+/-- **A sub-tensordict has torch's batch size and sees torch's selection.** For an Ellipsis-free tuple index torch accepts on the
+batch shape (result `R`): `_SubTensorDict.__init__` succeeds with `batch_size = R.shape`, and `sub.get(key)` is, for every leaf
+`bs ++ feat`, a tensor of shape `R.shape ++ feat` holding at `c ++ f` the source element `R.src c ++ f` (view bit as torch). -/
+theorem subtd_is_torch_on_batch (td : TD) (items : List Ix) (R : IndexResult) (j : Nat) (feat : Shape)
+    (hn : noEll items = true) (h : index td.bs items = .ok R) (hj : td.leaves[j]? = some feat) :
+    subInit td (.tuple items) = .ok { idx := .tuple items, bs := R.shape } ∧
+    ∃ R', subGet td { idx := .tuple items, bs := R.shape } j = .ok R' ∧ LeafOk R feat R' := by
+  have hany : items.any (· = Ix.ell) = false := by
+    simp only [noEll, List.all_eq_true, bne_iff_ne, ne_eq] at hn
+    simpa using hn
+  obtain ⟨hs, P, hw, hf⟩ := index_inv h
+  have hb := getitemBatchSize_tuple td.bs items _ P R hn hw hf
+  refine ⟨by simp [subInit, PyIndex.items, hany, hb, bind, Except.bind, pure, Except.pure], ?_⟩
+  obtain ⟨R', hR', hok⟩ := leaf_commutes td.bs feat items R hn h
+  exact ⟨R', by simp [subGet, hj, leafGet, PyIndex.items, hR'], hok⟩
+
+/-- **Writing through a sub-tensordict** (`sub.set_(key, value)`, and `sub.set(key, value)` for a key missing from the source) is
+`entry[idx] = value` (on a fresh zero entry `batch_size ++ value.shape[len(sub.batch_size):]` for a new key), provided the value
+starts with the sub-tensordict's batch size; otherwise it is refused (`_validate_value`). `setitem_frame` / `setitem_hit` then say
+which elements change. -/
+theorem subtd_set_is_leaf_assignment (td : TD) (sub : Sub) (target : Option Nat) (sh : Shape) :
+    subSet td sub target sh =
+      if sub.bs ≠ [] ∧ hasPrefix sub.bs sh = false then .error .runtime
+      else entryWriteK td sub.bs sub.idx.items 0 { target := target, shape := sh } sh := by
+  unfold subSet
+  by_cases h : sub.bs ≠ [] ∧ (!hasPrefix sub.bs sh) = true
+  · have h' : sub.bs ≠ [] ∧ hasPrefix sub.bs sh = false := ⟨h.1, by simpa using h.2⟩
+    rw [if_pos h, if_pos h']
+  · have h' : ¬ (sub.bs ≠ [] ∧ hasPrefix sub.bs sh = false) := by
+      intro hc; exact h ⟨hc.1, by simp [hc.2]⟩
+    rw [if_neg h, if_neg h']
 
 /-! ### aliasing -/
 
@@ -427,12 +540,21 @@ theorem src_rank (dims : Shape) (items : List Ix) (R : IndexResult) (h : index d
 
 /-! ### dim names
 
-Full statement (NOT provable — false of the code, see the counterexample):
-  for every index torch accepts on the batch shape, `_get_names_idx` returns one name per dim of the result, the name of
-  the source dim for sliced dims and `None` for new / broadcast dims.
-Proved: the statement for basic indices (ints, 0-d integer tensors, slices, `None`; the Ellipsis is converted before).
-Missing: advanced items. A list is treated like a slice, `None` between index arrays is not moved, a rank-k tensor
-repeats its name k times, later tensors are skipped: the number of names differs from the number of result dims. -/
+`_get_names_idx` after the fix: commit "one name per dim of an advanced-indexed result": index arrays are replaced, as in
+`_getitem_batch_size`, by the dims of their broadcast shape (in place when adjacent, in front when separated).
+Proved for ALL indices: the lookups never fail and there is exactly one name per dim of the result (`names_one_per_dim`,
+the coherence the old code violated — the former `names_follow_index_counterexample` is now an `example` of the theorem).
+Proved for basic indices: WHICH name every dim carries (`names_follow_index_partial`). Not proved: which names an advanced
+result carries (block named after the indexed dim for a single index array, `None` otherwise) — a convention pinned by the
+repo test `test_index_tensor_nd_names`, compared by the correspondence, not derived from torch (which has no names here). -/
+
+/-- **One name per dim of the result.** For every Ellipsis-free tuple index torch accepts on the batch shape with result `R` —
+basic or advanced, any number of index arrays, adjacent or not, `None` anywhere, masks of any rank, lone masks — `_get_names_idx`
+succeeds and returns either `None` or exactly `R.shape.length` names. -/
+theorem names_one_per_dim (names : Names) (bs : Shape) (items : List Ix) (R : IndexResult)
+    (hn : noEll items = true) (hlen : names.length = bs.length) (h : index bs items = .ok R) :
+    ∃ nm, namesIdx (some names) bs.length (.tuple items) = .ok nm ∧ ∀ l, nm = some l → l.length = R.shape.length :=
+  namesIdx_length names bs items R hn hlen h
 
 /-- **Names follow the index (basic indices).** For every Ellipsis-free tuple of ints, 0-d integer tensors, slices and
 `None`s accepted on the batch shape, `_get_names_idx` returns exactly the names torch's plan induces: a selected dim loses
@@ -475,13 +597,17 @@ theorem getitem_tuple_eq_torch_named (td : TD) (names : Names) (items : List Ix)
     ∃ res, getitem td (.tuple items) = .ok res ∧ GoodRes td R res :=
   getitem_tuple_eq_torch td items R hn (by intro nm hnm; rw [hnames] at hnm; cases hnm; exact hlen) h
 
-/-- **Counter-witness for advanced indices** (replayed on the implementation by the `getitem` correspondence stream and
-the `witness` stream): on batch `[3, 2, 4]` named `a, b, c`, `td[:, [0, 1], None, [0, 1]]` has batch size `[2, 3, 1]`
-(three dims) but `_get_names_idx` returns the four names `a, b, None, c`. -/
-theorem names_follow_index_counterexample :
+/-- the former counter-witness (batch `[3, 2, 4]` named `a, b, c`, `td[:, [0, 1], None, [0, 1]]`, batch size `[2, 3, 1]`): the code
+returned the four names `a, b, None, c`; now three, the broadcast dim in front and unnamed -/
+example :
     getitemBatchSize [3, 2, 4] (.tuple [slAll, .list [0, 1], .none, .list [0, 1]]) = .ok [2, 3, 1] ∧
     namesIdx (some [some "a", some "b", some "c"]) 3 (.tuple [slAll, .list [0, 1], .none, .list [0, 1]])
-      = .ok (some [some "a", some "b", none, some "c"]) := by
+      = .ok (some [none, some "a", none]) := by
+  constructor <;> decide
+/-- a single n-d index tensor keeps (and repeats) the name of the dim it indexes; a 2-d mask in a tuple gives one unnamed dim -/
+example :
+    namesIdx (some [some "a", some "b", some "c"]) 3 (.tuple [slAll, .tensor [1, 2] [0, 1]]) = .ok (some [some "a", some "b", some "b", some "c"]) ∧
+    namesIdx (some [some "a", some "b", some "c"]) 3 (.tuple [.mask [3, 2] [true, false, true, true, false, false], .int 0]) = .ok none := by
   constructor <;> decide
 
 example : basicNoEll [.int 1, .none, .slice (some 0) none (some 2)] = true
